@@ -9,12 +9,13 @@ from scoda.sequences.sequence import Sequence
 from scoda.tokenisation.notelike_tokenisation import MultiTrackLargeVocabularyNotelikeTokeniser as Tok
 
 ENGINE = "E1-sweep"
+FRESH_WORKERS = True     # every configuration (or configuration history) is built in a newly forked child
 RULE = ("for every configuration of the lattice (16 flag sets x velocity_bins x num_tracks x pitch ranges x note-value sets x "
         "step-size sets x time-signature ranges) the WHOLE vocabulary is enumerated: ids, sizes, encode/decode both ways and "
         "detokenise on every member; closure: every token emitted by tokenise on a pool of regular and irregular inputs is a "
         "member; distinct = distinct (configuration, member); non-trivial = configuration differs from the two the suite builds")
 ASSUMPTIONS = ["a tokenise call that raises TokenisationException is a rejection, not a violation"]
-REQUIRED_FLAGS = ["unfused_velocity", "unfused_track", "unfused_value", "no_running_values", "bins_gt_1", "multi_track",
+REQUIRED_FLAGS = ["construction_history", "unfused_velocity", "unfused_track", "unfused_value", "no_running_values", "bins_gt_1", "multi_track",
                   "closure_tokens_checked", "rejection_observed", "irregular_input_accepted", "member_detokenised"]
 
 FLAGS = list(itertools.product((True, False), repeat=4))   # running, fuse_track, fuse_value, fuse_velocity
@@ -65,8 +66,24 @@ def context(tier, seed):
     return {"tier": tier, "bounds": {"configurations": n, "flags": 16, "velocity_bins": "see lattice()", "tier": tier}}
 
 
+def histories(tier):
+    """construction histories: tokenisers built (and used) earlier in the same process, differing from the one under
+    test in exactly one parameter - shared class-level or module-level state would leak from one to the other"""
+    out = []
+    for fl in (FLAGS[0], FLAGS[15], FLAGS[2]):
+        base = dict(fl=fl, vb=2, nt=2, pr=(60, 61), nv=0, st=0, tsr=0)
+        variants = [dict(base, st=1), dict(base, st=2), dict(base, tsr=1), dict(base, vb=8), dict(base, vb=1), dict(base, nt=1),
+                    dict(base, nt=3), dict(base, pr=(60, 62)), dict(base, nv=1), dict(base, nv=2)]
+        variants += [dict(base, fl=tuple(not x if i == k else x for i, x in enumerate(fl))) for k in range(4)]
+        for v in variants:
+            out.append(dict(v, before=[base]))
+            out.append(dict(base, before=[v]))
+        out.append(dict(base, before=[variants[0], variants[3], variants[5]]))
+    return out
+
+
 def units(ctx):
-    return list(lattice(ctx["tier"]))
+    return list(lattice(ctx["tier"])) + histories(ctx["tier"])
 
 
 def make_tok(cfg):
@@ -102,6 +119,13 @@ def pool(cfg, t):
     s.add_absolute_message(lib.off(24 + 12, lo, 0))
     out.append(("overlapping_same_pitch", tracks(s)))
     out.append(("pitch_out_of_range", tracks(lib.seq_abs([(0, vm, (lo - 1) if lo > 0 else hi, 0, 64), (24, vm, min(hi + 1, 127), 0, 64)]))))
+    if hi < 127:
+        out.append(("pitch_too_high_in_the_middle", tracks(lib.seq_abs([(0, vm, lo, 0, 64), (24, vm, hi + 1, 0, 64), (48, vm, lo, 0, 64)]))))
+        out.append(("pitch_too_high_first", tracks(lib.seq_abs([(0, vm, hi + 1, 0, 64), (24, vm, hi, 0, 64), (48, vm, lo, 0, 64), (72, vm, hi, 0, 9)]))))
+    if lo > 0:
+        out.append(("pitch_too_low_in_the_middle", tracks(lib.seq_abs([(0, vm, hi, 0, 64), (24, vm, lo - 1, 0, 64), (48, vm, hi, 0, 64)]))))
+    odd = next(x for x in (5, 7, 10, 11, 13) if x not in vals)
+    out.append(("value_not_allowed_in_the_middle", tracks(lib.seq_abs([(0, vm, lo, 0, 64), (24, odd, hi, 0, 64), (48, vm, lo, 0, 64)]))))
     bars = Sequence.sequences_split_bars([lib.seq_abs([(0, vm, lo, 0, 64), (72 + 24, vm, hi, 0, 90)], [("ts", 0, 3, 4)])], 0)[0]
     short = Bar.to_sequence(bars)
     out.append(("bars_rejoined", tracks(short)))
@@ -120,6 +144,15 @@ def run_unit(cfg, acc, ctx):
     suite_cfg = cfg["nt"] == 1 and cfg["vb"] == 1 and all(fl[1:]) and cfg["pr"] == (21, 108) and not cfg["nv"] and not cfg["st"]
     tags = {"velocity_bins": cfg["vb"], "fuse_velocity": fl[3]}
     case0 = {"cfg": cfg}
+    for prev in cfg.get("before", []):
+        # earlier tokenisers of the same process, built and used like a caller would
+        pt = make_tok(prev)
+        for name, seqs in pool(prev, pt)[:3]:
+            try:
+                pt.get_info(pt.tokenise(seqs))
+            except TokenisationException:
+                pass
+        acc.flags["construction_history"] += 1
 
     def bad(sig, detail, extra=None):
         acc.violation(sig, dict(case0, **(extra or {})), detail, tags)
@@ -194,5 +227,6 @@ def replay(case, ctx):
     cfg = dict(case["cfg"])
     cfg["fl"] = tuple(cfg["fl"])
     cfg["pr"] = tuple(cfg["pr"])
+    cfg["before"] = [dict(b, fl=tuple(b["fl"]), pr=tuple(b["pr"])) for b in cfg.get("before", [])]
     run_unit(cfg, acc, ctx)
     return [(v.sig, v.detail) for v in acc.viols]
